@@ -26,7 +26,7 @@ def run(chk):
     chk.validate('inline-pa', 'Trace_MM', 'Trace_MM.cfg', irecs, driver='mm', jobs=12)
     goods = [x for x in recs if x['kind'] == 'posterior' and x['exc'] == '' and x['full'][-2] >= 2
             and 'call=predict' in x['fp'] and 'sam=False' in x['fp']]
-    good = goods[0]
+    good = goods[0] if goods else None
 
     def corrupt(x):
         d = x['aff']['data']
